@@ -24,15 +24,21 @@ fn main() {
     let n_cases: u64 = a[2].parse().unwrap(); let mut rng = Rng::from_env();
     let mut tr = std::io::BufWriter::new(std::fs::File::create(&a[3]).unwrap());
     let rt = tokio::runtime::Builder::new_multi_thread().enable_all().worker_threads(2).build().unwrap();
-    let mut fails = vec![]; let mut samples = vec![]; let (mut readers_checked, mut failing_cases, mut outputs) = (0u64, 0u64, 0u64);
+    let mut fails = vec![]; let mut samples = vec![]; let (mut readers_checked, mut failing_cases, mut outputs) = (0u64, 0u64, 0u64); let mut n_symlinked = 0u64;
     for case in 0..n_cases {
         let dir = tempfile::tempdir().unwrap();
         let nout = 1 + rng.below(3); let mut lines: Vec<String> = vec!["new".into()]; let mut tid = 0u64;
         // ---- existing (old) outputs, version 1
         let mut old: Vec<Option<u64>> = vec![];
-        for k in 0..nout { if rng.chance(3, 4) { let n = 1 + rng.below(3); std::fs::write(dir.path().join(format!("out{}.o", k)), body(k, 1, n)).unwrap(); old.push(Some(n));
+        let mut symlinked: Vec<u64> = vec![];
+        for k in 0..nout { if rng.chance(3, 4) { let n = 1 + rng.below(3);
+                // one existing output in four is a symbolic link to the file holding the old bytes (the restore must replace the link, not write through it)
+                if rng.chance(1, 4) { let t = dir.path().join(format!("linktarget{}", k)); std::fs::write(&t, body(k, 1, n)).unwrap(); std::os::unix::fs::symlink(&t, dir.path().join(format!("out{}.o", k))).unwrap(); symlinked.push(k); }
+                else { std::fs::write(dir.path().join(format!("out{}.o", k)), body(k, 1, n)).unwrap(); }
+                old.push(Some(n));
                 lines.push(format!("spawnPut {} {} 1 {} -> * | *", tid, k, n)); lines.push(format!("putPrepare {} -> * | *", tid)); for _ in 0..n { lines.push(format!("putWrite {} -> * | *", tid)); } lines.push(format!("putCommit {} -> * | *", tid)); tid += 1; }
             else { old.push(None); } }
+        n_symlinked += symlinked.len() as u64;
         // ---- readers that opened the old files, and hard links
         let mut fds: Vec<(u64, u64, std::fs::File)> = vec![]; let mut links = vec![];
         for k in 0..nout { if old[k as usize].is_some() {
@@ -68,6 +74,8 @@ fn main() {
                     if !(ck == k && cv == 1 && wr == tot) { fails.push(fail_json("old_reader_saw_other_bytes", &format!("descriptor opened on out{}.o before the hit read {}:{}:{}/{}", k, ck, cv, wr, tot), &lines, "")); } }
                 None => { lines.push(format!("getRead {} -> hit {} mixed | *", t, t)); fails.push(fail_json("old_reader_saw_mixed_bytes", &format!("descriptor on out{}.o", k), &lines, "")); } } }
         for (k, l) in &links { match decode(&std::fs::read(l).unwrap()) { Some((_, 1, wr, tot)) if wr == tot => {}, other => fails.push(fail_json("hard_link_rewritten", &format!("a hard link to out{}.o made before the hit now reads {:?}", k, other), &lines, "")) } }
+        for k in &symlinked { match decode(&std::fs::read(dir.path().join(format!("linktarget{}", k))).unwrap()) { Some((_, 1, wr, tot)) if wr == tot => {},
+            other => fails.push(fail_json("symlink_target_rewritten", &format!("out{}.o was a symbolic link; the file it pointed to now reads {:?} (the restore wrote through the link instead of replacing it)", k, other), &lines, "")) } }
         // ---- final state of the directory
         let mut files = vec![]; let mut temps = 0; let mut idx = String::new();
         for k in 0..4u64 { let p = dir.path().join(format!("out{}.o", k));
@@ -83,6 +91,6 @@ fn main() {
         for l in &lines { writeln!(tr, "{}", l).unwrap(); }
         if samples.len() < 2 && bad.is_some() && case > 1 { samples.push(lines.join(" ; ")); }
     }
-    std::fs::write(&a[4], format!("{{\"cases\":{},\"cases_with_failing_member\":{},\"old_descriptors_checked\":{},\"output_files_checked\":{},\"monitor_failures\":[{}],\"samples\":[{}]}}",
-        n_cases, failing_cases, readers_checked, outputs, fails.join(","), samples.iter().map(|s| jstr(s)).collect::<Vec<_>>().join(","))).unwrap();
+    std::fs::write(&a[4], format!("{{\"cases\":{},\"cases_with_failing_member\":{},\"old_descriptors_checked\":{},\"symlinked_outputs\":{},\"output_files_checked\":{},\"monitor_failures\":[{}],\"samples\":[{}]}}",
+        n_cases, failing_cases, readers_checked, n_symlinked, outputs, fails.join(","), samples.iter().map(|s| jstr(s)).collect::<Vec<_>>().join(","))).unwrap();
 }
